@@ -181,40 +181,33 @@ harness!(
     leak(names);
 });
 
-harness!(
-    /// the public datum writer emits the same bytes with validation on and off, for conforming
-    /// values (all i64 under long, both booleans, all f64 under double).
-    datum_writer_validate_flag, unwind = 12, {
+fn datum_write<const VALIDATE: bool>(schema: &Schema, v: &Value) -> ([u8; 16], usize) {
     use apache_avro::schema::ResolvedSchema;
     use apache_avro::vmap::HashMap;
     use apache_avro::writer::datum::GenericDatumWriter;
-    let which = any_u8();
-    assume(which < 3);
-    let (v, schema) = match which {
-        0 => (Value::Long(any_i64()), Schema::Long),
-        1 => (Value::Boolean(any_bool()), Schema::Boolean),
-        _ => (Value::Double(f64::from_bits(any_u64())), Schema::Double),
-    };
-    let mut out = [[0u8; 16]; 2];
-    let mut lens = [0usize; 2];
-    let mut k = 0;
-    while k < 2 {
-        let resolved = ResolvedSchema { names_ref: HashMap::new(), schemata: vec![&schema] };
-        let w = GenericDatumWriter { schema: &schema, resolved, validate: k == 0, human_readable: false, target_block_size: None };
-        let mut sink: Sink<16> = Sink::total();
-        match w.write_value_ref(&mut sink, &v) {
-            Ok(_) => {}
-            Err(e) => {
-                leak(e);
-                assert!(false, "writing a conforming value failed");
-            }
+    let resolved = ResolvedSchema { names_ref: HashMap::new(), schemata: vec![schema] };
+    let w = GenericDatumWriter { schema, resolved, validate: VALIDATE, human_readable: false, target_block_size: None };
+    let mut sink: Sink<16> = Sink::total();
+    match w.write_value_ref(&mut sink, v) {
+        Ok(_) => {}
+        Err(e) => {
+            leak(e);
+            assert!(false, "writing a conforming value failed");
         }
-        out[k] = sink.data;
-        lens[k] = sink.len;
-        leak(w);
-        k += 1;
     }
-    assert!(lens[0] == lens[1] && slice_eq(&out[0], &out[1], lens[0]), "bytes differ between validate = true and validate = false");
+    leak(w);
+    (sink.data, sink.len)
+}
+
+harness!(
+    /// the public datum writer emits the same bytes with validation on and off, for conforming
+    /// values (all i64 under schema long).
+    datum_writer_validate_flag, unwind = 12, {
+    let schema = Schema::Long;
+    let v = Value::Long(any_i64());
+    let (a, al) = datum_write::<true>(&schema, &v);
+    let (b, bl) = datum_write::<false>(&schema, &v);
+    assert!(al == bl && slice_eq(&a, &b, al), "bytes differ between validate = true and validate = false");
     leak(v);
 });
 
